@@ -16,6 +16,8 @@ CASES = [
     ("C04_jdestrace", "JdesTrace", "J", lambda v: v + 1, {}),
     ("C05_trace", "AnalyzerTrace", ("q", 0), lambda v: v + 400, {}),
     ("C06_rtrace", "ResultTrace", "coh", lambda v: v + 5000, {}),
+    # the longest clause names: TLC wraps the printed FAIL tuple over several lines (a parser that reads one line would miss it)
+    ("C10_rtrace", "ResultTrace", "pr", lambda v: 1048576 + 300, {}),
     ("C08_trace", "DetrendTrace", "all", lambda v: v + 100000, {}),
     ("C12_trace", "KaiserTrace", "M", lambda v: v + 1, dict(constants=dict(Pslls=Raw("{40}"), KLs=Raw("{64}")), spec="TSpec")),
     ("C13_trace", "InputTrace", "changed", lambda v: 1, dict(constants=dict(SanitiseInPlace=False, NLen=4, EmitCases=False), spec="TSpec")),
